@@ -214,6 +214,9 @@ var mcPrograms = map[string]struct {
 }
 
 var subKinds = []string{"with", "withres", "withgroup", "get", "call"}
+
+// free-running programs also deliver access requests
+var subKindsFree = []string{"with", "withres", "withgroup", "get", "call", "access", "get", "access"}
 var apiKinds = []string{"reset", "resetall", "token", "tokenid", "tokenreset", "event"}
 
 // free-running programs also start query events (gate replays keep to the model's API callers)
@@ -389,7 +392,7 @@ func Run(c *core.Ctx) {
 			var subs []Sub
 			for k := 0; k < n; k++ {
 				g := []string{"g1", "g1", "g2", "g3", "par", "g4", "g4", "g5", "g5", "g6", "g6"}[rng.Intn(11)]
-				kind := subKinds[rng.Intn(len(subKinds))]
+				kind := subKindsFree[rng.Intn(len(subKindsFree))]
 				if g == "par" && kind == "withgroup" {
 					kind = "withres"
 				}
@@ -474,7 +477,7 @@ func Run(c *core.Ctx) {
 		}
 		if i%2 == 0 {
 			prog.Producers["p1"] = mk(150+rng.Intn(250), []string{hot}, []string{"with", "withgroup", "call"})
-			prog.Producers["p2"] = mk(60+rng.Intn(60), []string{hot, hot, "g3"}, []string{"with", "withres", "get"})
+			prog.Producers["p2"] = mk(60+rng.Intn(60), []string{hot, hot, "g3"}, []string{"with", "withres", "get", "access", "get", "access"})
 		} else {
 			// bursts that a worker runs through in one go, each followed by spaced single submissions
 			var p1, p2 []Sub
